@@ -295,6 +295,9 @@ def gen_dataset(rng):
     pos = sorted(int(x) for x in rng.choice(np.arange(100, 2000, 50), size=m, replace=False))
     variants = [[f"v{j}", p] for j, p in enumerate(pos)]
     gts = rng.integers(0, 2, size=(m, n, 2)).tolist()
+    if rng.random() < 0.25:
+        # a missing call: --discard-missing decides between an error and dropping the sample
+        gts[int(rng.integers(0, m))][int(rng.integers(0, n))] = [-1, -1]
     nh = int(rng.integers(2, 5))
     haps = []
     for h in range(nh):
@@ -323,7 +326,7 @@ def write_vcf(path, samples, recs):
         f.write("##FORMAT=<ID=GT,Number=1,Type=String,Description=\"Genotype\">\n")
         f.write("#CHROM\tPOS\tID\tREF\tALT\tQUAL\tFILTER\tINFO\tFORMAT\t" + "\t".join(samples) + "\n")
         for c, p, i, ref, alt, g in recs:
-            f.write(f"{c}\t{p}\t{i}\t{ref}\t{alt}\t.\t.\t.\tGT\t" + "\t".join(f"{a}|{b}" for a, b in g) + "\n")
+            f.write(f"{c}\t{p}\t{i}\t{ref}\t{alt}\t.\t.\t.\tGT\t" + "\t".join(f"{a}|{b}".replace("-1", ".") for a, b in g) + "\n")
     pysam.tabix_compress(plain, path, force=True)
     os.unlink(plain)
     pysam.tabix_index(path, preset="vcf", force=True)
